@@ -31,6 +31,10 @@ type bcfg struct {
 	Snaps      int      `json:"snaps"`       // older leader copies kept for L.loseTail
 	K          int      `json:"k"`           // recovery bound (fault-free steps)
 	Local      bool     `json:"local"`       // the leader also has its local replicator (a second consumer group whose ack advances by event L.local)
+	// Expire: the log belongs to a data family that expired long ago; after the last append the leader's periodic clean-up
+	// decision (partition.IsExpire, event L.expire, terminal) may run at any moment: it may only answer "delete the log"
+	// or stop the follower's replicator when the follower holds everything
+	Expire bool `json:"expire,omitempty"`
 }
 
 var (
@@ -91,6 +95,11 @@ func configs(thorough bool) []bcfg {
 	for _, w := range words(2) {
 		mk(w, 2, "transport+follower", menuTransport, menuA)
 	}
+	// the clean-up decision of an expired family, at every moment after the last append, with transport faults
+	for _, w := range words(2) {
+		c := bcfg{Name: fmt.Sprintf("%s/b1/expire", w), Word: w, Budget: 1, StepFaults: []string{"send", "recv", "ferr"}, Faults: []string{"streamBreak", "F.offline"}, K: len(w) + 4, Expire: true}
+		out = append(out, c)
+	}
 	// (a configuration with the leader's local replicator as second consumer group - bcfg.Local - is not
 	// registered: the local replicator keeps its sequence in the shared real data family, which survives the
 	// per-replay fresh WAL directories and makes replays diverge; the clause "log GC is held back by the
@@ -123,6 +132,7 @@ func main() {
 		vevid.OpFailed("shard not found")
 	}
 	familyTime = shard.CurrentInterval().Calculator().CalcFamilyTime(time.Now().UnixMilli())
+	familyTimeOld = shard.CurrentInterval().Calculator().CalcFamilyTime(time.Now().UnixMilli() - 30*24*3600*1000)
 	installPartitionWrapper()
 	worldRoot = filepath.Join(f.Scratch, "worlds")
 	_ = os.MkdirAll(worldRoot, 0o755)
